@@ -23,13 +23,16 @@ def sh(cmd, cwd, timeout=600, env=None):
         return -999, "", "WATCHDOG"
 
 
-def generate(lib, extra_argv=()):
-    """Run Shroud on the library; returns (outdir, run result)."""
+def generate(lib, extra_argv=(), before=None):
+    """Run Shroud on the library; returns (outdir, run result).  before: run specs of other libraries that are
+    processed first in the same Python process (only the last library's output is kept)."""
     from . import shroudrun
     from .libgen import gen
     d = libs.yaml_of(lib)
     sp = gen.spec_for(d, lib["name"], extra_argv=extra_argv)
     sp["keep"] = True
+    if before:
+        sp = dict(sp, seq=list(before) + [dict(sp)])
     rr = shroudrun.run(sp)
     return rr
 
